@@ -56,7 +56,8 @@ def cases(tier, seed):
             add(['first', p2, p3], [], 2, 16)
             add(['first', p2, p3], ['reg'], 1, 16)
     for script in itertools.product(('ok', 'exc'), repeat=3):
-        out.append({'k': 'timer', 'script': list(script)})
+        for iv in (5, '5', 0, '0', -1):
+            out.append({'k': 'timer', 'script': list(script), 'interval': iv})
     for how in ('one-after-the-other', 'side-by-side'):
         out.append({'k': 'two-agents', 'how': how})
     return out
@@ -371,7 +372,7 @@ def timer_case(ctx, desc):
         st = {}
 
         def app():
-            t = deep.utils.RepeatedTimer('poll-timer', 5, fn)
+            t = deep.utils.RepeatedTimer('poll-timer', desc.get('interval', 5), fn)
             st['timer'] = t
             t.start()
             for _ in script:
@@ -386,12 +387,17 @@ def timer_case(ctx, desc):
         sched, st = S.run_one(make, [])
     ctx.case()
     ctx.traces += 1
-    ctx.state(('timer', tuple(script)))
-    ctx.edge('timer', tuple(script), len(calls))
+    ctx.state(('timer', tuple(script), str(desc.get('interval'))))
+    ctx.edge('timer', (tuple(script), str(desc.get('interval'))), len(calls))
     if 'exc' in script:
         ctx.nt(('timer', tuple(script)))
     if sched.deadlock:
         ctx.violation('C12/timer/deadlock', f'{sched.deadlock}', desc)
     elif len(calls) != len(script):
+        for t in sched.threads:
+            if t.exc is not None:
+                ctx.violation('C12/timer/polling-thread-died/' + type(t.exc).__name__, f'interval {desc.get("interval", 5)!r}, tick script {script}: {t.name} ended with {t.exc!r} '
+                              f'after {len(calls)} of {len(script)} runs', desc)
+                return
         ctx.violation('C12/timer/polling-stopped-after-failure', f'tick script {script}: the function ran {len(calls)} times; a failing tick ended the loop', desc)
     ctx.outcome(('timer', len(calls)))
